@@ -3,7 +3,7 @@
 # usage: try_mut.sh <PID> <m1|m2> [check ids...]   (default check: the PID itself)
 PID=$1; M=$2; shift 2
 CHECKS=${@:-$PID}
-SRC=/tmp/mut/out/$PID/$M
+SRC=${MUTBASE:-/tmp/mut}/out/$PID/$M
 [ -f $SRC/patch.diff ] || SRC=/verif/seeded/$PID-$M
 SCR=/tmp/mutv/${PID}_$M
 export GOFLAGS= GOPROXY=off GOSUMDB=off GOTOOLCHAIN=local
